@@ -1,6 +1,7 @@
 import JSL.Inv.Offers
 import JSL.Inv.EnvReach
 import JSL.Props.Example
+import JSL.Inv.ProgressPass
 
 /-!
 # C11 — no deadlock (what is proved, and what is false)
@@ -14,6 +15,17 @@ Proved:
   AGV has claimed;
 * `c11_last_decline_advances` (C18/C12) – declining everything always moves the clock strictly
   forward, so "nothing happens forever at one instant" cannot be caused by the agent.
+
+* **`c11_never_out_of_offers`** – for instances whose buffers are all unordered and that have an AGV
+  (`flexInstB`, `hasAgvB`: decidable, on the `G` line of every scenario by both sides): every
+  environment state held after a successful reset or step that is not finished offers at least one
+  transition – the finding "zero offers although not done" cannot occur in this class;
+  `c11_something_can_happen` – at state level: a non-finished state has an offer or something is
+  pending (an operation in progress or a busy AGV with a fixed arrival time not in the past), also
+  with ordered buffers when early transport is allowed (`c11_something_can_happen_early`);
+  `c11_an_agv_is_needed` – without an AGV-typed transport the initial state is stuck.
+  (Not proved: that the terminal state stays reachable and that the always-accept agent finishes in
+  a bounded number of steps.)
 
 False as stated (genuine, recorded as known findings with replayable inputs): inside the class
 the property delimits there are livelocks (an ordered standalone buffer, enough AGVs, early
@@ -64,5 +76,36 @@ theorem c11_offered_agv_idle_job_unclaimed {cfg : SMConfig} {σ : State} {poss :
     | some o => simp [hn] at e; subst e; simp at ht
   · obtain ⟨t, htm, j, hj, rfl, hidle, hunc, _⟩ := possibleTransport_facts hpt tr h1
     exact ⟨t, htm, rfl, hidle, j, hj, rfl, hunc⟩
+
+/-- **In the class of unordered buffers with an AGV the environment never runs out of offers**
+before the shop is done. -/
+theorem c11_never_out_of_offers {ec : EnvCfg} {st : RewardStatic} {s0 : State} (hst : Start orc inst s0)
+    (hF : flexInstB inst = true) (hA : hasAgvB inst = true) {e : EnvState} (h : EnvReach orc inst ec st s0 e)
+    (hs : e.res.success = true) (hnd : isDone inst e.res.state = false) : e.res.possible ≠ [] :=
+  env_offers hst hF hA h hs hnd
+
+/-- a non-finished state of an episode has an offer, or something is pending -/
+theorem c11_something_can_happen {ec : EnvCfg} {st : RewardStatic} {s0 : State} (hst : Start orc inst s0)
+    (hF : flexInstB inst = true) (hA : hasAgvB inst = true) {e : EnvState} (h : EnvReach orc inst ec st s0 e)
+    (hnd : isDone inst e.res.state = false) {poss : List Transition}
+    (hposs : possibleTransitions inst ec.sm e.res.state = .ok poss) : poss ≠ [] ∨ Pending e.res.state :=
+  env_progress hst hF hA h hnd hposs
+
+/-- the same at state level with early transport allowed, whatever the buffer types -/
+theorem c11_something_can_happen_early (w : WF inst) (hA : HasAgv inst) {cfg : SMConfig} (he : cfg.allowEarly = true)
+    {s : State} (hI : StructInv inst s) (hS : SchedInv s) (hP : AgvFull inst s) (hN : NoDep s)
+    (hnd : isDone inst s = false) {poss : List Transition} (hp : possibleTransitions inst cfg s = .ok poss) :
+    poss ≠ [] ∨ Pending s :=
+  progress_state_early w hA he hI hS hP hN hnd hp
+
+/-- **an AGV is needed**: unordered buffers alone do not give progress -/
+theorem c11_an_agv_is_needed : initOKB ExP.instC Ex.s0 = true ∧ restB Ex.s0 = true ∧ placedB ExP.instC Ex.s0 = true ∧
+    flexInstB ExP.instC = true ∧ hasAgvB ExP.instC = false ∧ isDone ExP.instC Ex.s0 = false ∧
+    possibleTransitions ExP.instC { allowEarly := true } Ex.s0 = .ok [] ∧
+    possibleTransitions ExP.instC { allowEarly := false } Ex.s0 = .ok [] ∧ ¬ Pending Ex.s0 :=
+  ExP.no_agv_stuck
+
+/-- non-vacuity: the example instance is in the class -/
+example : flexInstB Ex.inst = true ∧ hasAgvB Ex.inst = true := by decide
 
 end JSL
